@@ -80,12 +80,27 @@ class VTask(asyncio.Task):
     def __eq__(self, other):
         return self is other
 
+    def __setattr__(self, name, value):
+        # remember what the program under test attaches to its tasks, whatever
+        # the attribute is called (the C Task type does not expose __dict__)
+        super().__setattr__(name, value)
+        if not name.startswith('_v'):
+            try:
+                attached = self._vattached
+            except AttributeError:
+                attached = []
+                super().__setattr__('_vattached', attached)
+            attached.append(value)
+
     def cancel(self, msg=None):
         ret = super().cancel(msg)
         loop = self.get_loop()
         hook = getattr(loop, 'on_task_cancel', None)
         if hook is not None:
-            hook(self, ret)
+            try:
+                hook(self, ret)
+            except Exception as exc:                    # noqa  never disturb the program under test
+                loop.hook_errors = getattr(loop, 'hook_errors', []) + [repr(exc)]
         return ret
 
 
